@@ -387,6 +387,77 @@ type Update struct {
 	SelKey  int             // partial selector identifier, -1 none
 	DelSel  int             // delete selector identifier, -1 none
 	DelElem []int           // item field indices the delete filter names
+	// DelMatch (kind delete-sel-multi): a delete selector naming only part of the identifier or a
+	// non-identifier field, so that it may match several items; all of them are to be removed
+	DelMatch []FieldMatch
+}
+
+// FieldMatch: the item field with index Field must equal Val (a non-nil pointer of the field's type).
+type FieldMatch struct {
+	Field int
+	Val   reflect.Value
+}
+
+// SelectableFields returns the item fields the selector type can name (same field name and type).
+func (li *ListInfo) SelectableFields() []int {
+	var fs []int
+	if li.SelT == nil {
+		return nil
+	}
+	for i := 0; i < li.ElemT.NumField(); i++ {
+		ft := li.ElemT.Field(i)
+		if ft.Type.Kind() != reflect.Ptr {
+			continue
+		}
+		if sf, ok := li.SelT.FieldByName(ft.Name); ok && sf.Type == ft.Type {
+			fs = append(fs, i)
+		}
+	}
+	return fs
+}
+
+// GenMultiDelete draws a delete whose selector takes ONE field value from an item of cur: a part of a
+// multi-key identifier or a non-identifier field. ok=false if the list type offers no such selector.
+func (li *ListInfo) GenMultiDelete(r *rand.Rand, cur []reflect.Value) (Update, bool) {
+	u := Update{Kind: "delete-sel-multi", SelKey: -1, DelSel: -1}
+	fields := li.SelectableFields()
+	if len(fields) == 0 || len(cur) == 0 {
+		return u, false
+	}
+	it := cur[r.Intn(len(cur))]
+	var cand []int
+	for _, f := range fields {
+		isKey := false
+		for _, k := range li.Keys {
+			if k == f {
+				isKey = true
+			}
+		}
+		if isKey && len(li.Keys) == 1 {
+			continue // the complete identifier: that is the ordinary delete-sel shape
+		}
+		if !it.Field(f).IsNil() {
+			cand = append(cand, f)
+		}
+	}
+	if len(cand) == 0 {
+		return u, false
+	}
+	f := cand[r.Intn(len(cand))]
+	v := reflect.New(it.Field(f).Type().Elem())
+	v.Elem().Set(it.Field(f).Elem())
+	u.DelMatch = []FieldMatch{{Field: f, Val: v}}
+	return u, true
+}
+
+func (li *ListInfo) multiMatch(it reflect.Value, ms []FieldMatch) bool {
+	for _, m := range ms {
+		f := it.Field(m.Field)
+		if f.IsNil() || Canon(f.Elem()) != Canon(m.Val.Elem()) {
+			return false
+		}
+	}
+	return true
 }
 
 func overlay(dst, src reflect.Value) {
@@ -409,6 +480,15 @@ func (li *ListInfo) RefApply(cur []reflect.Value, u Update) []reflect.Value {
 	cur = CloneItems(cur)
 	if u.Kind == "full" {
 		return CloneItems(u.Items)
+	}
+	if len(u.DelMatch) > 0 {
+		var out []reflect.Value
+		for _, it := range cur {
+			if !li.multiMatch(it, u.DelMatch) {
+				out = append(out, it)
+			}
+		}
+		return out
 	}
 	if u.DelSel >= 0 || len(u.DelElem) > 0 {
 		var out []reflect.Value
@@ -474,6 +554,15 @@ func (li *ListInfo) Filters(u Update) (fp, fd *model.FilterType, ok bool) {
 	}
 	if u.SelKey >= 0 {
 		reflect.ValueOf(fp).Elem().Field(li.SelIdx).Set(li.Selector(u.SelKey))
+	}
+	if len(u.DelMatch) > 0 {
+		fd = &model.FilterType{CmdControl: &model.CmdControlType{Delete: &model.ElementTagType{}}}
+		sel := reflect.New(li.SelT)
+		for _, m := range u.DelMatch {
+			sel.Elem().FieldByName(li.ElemT.Field(m.Field).Name).Set(m.Val)
+		}
+		reflect.ValueOf(fd).Elem().Field(li.SelIdx).Set(sel)
+		return nil, fd, true
 	}
 	if u.DelSel >= 0 || len(u.DelElem) > 0 {
 		fd = &model.FilterType{CmdControl: &model.CmdControlType{Delete: &model.ElementTagType{}}}
@@ -592,6 +681,9 @@ func (u Update) String() string {
 	}
 	if len(u.DelElem) > 0 {
 		s += fmt.Sprintf(" delelem=%v", u.DelElem)
+	}
+	for _, m := range u.DelMatch {
+		s += fmt.Sprintf(" delmatch(field %d)=%s", m.Field, Canon(m.Val.Elem()))
 	}
 	if len(u.Items) > 0 {
 		s += " items=" + strings.ReplaceAll(Multiset(u.Items), "\n", " ; ")
